@@ -11,6 +11,7 @@ struct verif_w_s {
   unsigned uid, euid, gid, egid, tty_uid; int pid, ppid, sid; long ktid; unsigned long ptid; long now, tv_sec, tv_usec;
   int pw_asked, gr_asked; unsigned pw_uid, gr_gid; int tty_fd_asked, stat_tag, login_asked; const char *env_asked; char *env_val;
   int getsid_arg; long syscall_no; const char *strftime_fmt; const void *strftime_tm; const void *localtime_out; int localtime_in_ok;
+  int pw_found, gr_found, cwd_ok, host_ok, tty_ok, stat_ok, login_ok, env_found, strftime_ok, time_ok, localtime_ok, tod_ok;   /* which queries succeeded */
   int fd_open; unsigned lines_left; int utmp_open; int never;
   int ntag, tag_overflow; const void *tag_obj[VERIF_NTAG]; int tag[VERIF_NTAG];
   struct verif_rs_s rs[VERIF_NRS];
